@@ -151,6 +151,21 @@ func litVal(t string) (*big.Int, bool) {
 	return nil, false
 }
 
+// rangeFactRO: like rangeFact but without touching the side tables (safe for concurrent use)
+func (a *Arith) rangeFactRO(term string, t types.Type) string {
+	bits, signed, ok := intInfo(t)
+	if !ok || bits == 0 || a.mode == ModeBV {
+		return "true"
+	}
+	if signed {
+		lo := new(big.Int).Neg(pow2(bits - 1))
+		hi := new(big.Int).Sub(pow2(bits-1), big.NewInt(1))
+		return and(sx("<=", a.mode.num(lo, "Int"), term), sx("<=", term, hi.String()))
+	}
+	hi := new(big.Int).Sub(pow2(bits), big.NewInt(1))
+	return and(sx("<=", "0", term), sx("<=", term, hi.String()))
+}
+
 func (a *Arith) rangeFact(term string, t types.Type) string {
 	if a.mode == ModeBV {
 		return "true"
@@ -168,6 +183,7 @@ func (a *Arith) rangeFact(term string, t types.Type) string {
 		return and(sx("<=", a.mode.num(lo, "Int"), term), sx("<=", term, hi.String()))
 	}
 	hi := new(big.Int).Sub(pow2(bits), big.NewInt(1))
+	a.maxBits[term] = bits
 	return and(sx("<=", "0", term), sx("<=", term, hi.String()))
 }
 
